@@ -35,6 +35,10 @@ type Config struct {
 	NoSnapshot bool
 	TraceFn    string
 	DebugModel map[string]uint64
+	// Owned: assertion-id prefixes the running check decides (empty = all). An assertion of another
+	// property is neither checked nor assumed: it must not end a path before the owned assertions
+	// behind it are reached (on a tree where it holds, assuming it adds nothing to the path condition).
+	Owned []string
 }
 
 type Obligation struct {
